@@ -594,7 +594,11 @@ func TestVerifC07Seek(t *testing.T) {
 						x.Tag(fmt.Sprintf("seek-error-whence=%d", whence))
 						x.Check(target < 0 || target > int64(f.l), "seek-rejects-valid", "%v Seek(%d, whence=%d) from %d requests position %d inside [0,size] but failed: %v", f, o, whence, pos, target, err)
 						cur, err2 := j.Seek(0, io.SeekCurrent)
-						x.Check(err2 == nil, "seek-rejects-valid", "%v Seek(0, current) failed after a rejected seek: %v", f, err2)
+						if err2 != nil {
+							// position unknown: nothing more can be required of this sequence
+							x.Outcome("position-unknown-after-rejected-seek")
+							return
+						}
 						x.Check(cur >= 0, "seek-negative-accepted", "%v position after a rejected seek is %d", f, cur)
 						if cur == pos {
 							x.Tag("position-unchanged-after-rejected-seek")
